@@ -22,6 +22,8 @@
 (*   FlippedPSFAdjoint   2-D adjoint = padded convolution with flipped PSF *)
 (*   GradientOmitsGeometryDerivative, SamplesItemsAsFunvals,               *)
 (*   ArrayFlagIgnored, RenameMutatesOriginal      (C12, non-vacuity)       *)
+(*   RenameAdoptsDistributionGeometry  model(dist) completes a default     *)
+(*                        domain geometry from the distribution's geometry *)
 (*   SamplesFunItemsAsParameters  columns of a Samples of function values  *)
 (*                        are converted with par2fun again (Model._apply_func) *)
 (* The deciding configurations have Dev = {}; each *.deviation.cfg switches *)
@@ -321,8 +323,29 @@ C12Rng(n) == { g \in LinGeoms(n) : /\ g.kind \notin {"default1d", "visual", "con
                                    /\ (Lean => g.kind # "discrete") }
                 \cup { Geo("step", n, StepK(n, TRUE), 1, n, "min", StepAsg(n, TRUE)), Geo("mappednl", n, n, 1, n, "", <<>>) }
 
+\* models whose geometries are DEFAULT ones (given as an int / inferred from a matrix), with a few partner geometries:
+\* these are the models the library could be tempted to "complete" (renaming, below)
+DefGeo(n) == Geo("default1d", n, n, 1, n, "", <<>>)
+C12DefPairs == LET pick(S, kinds) == {g \in S : g.kind \in kinds}
+               IN ({DefGeo(6)} \X ({DefGeo(4)} \cup pick(C12Rng(4), {"cont1d", "mapped"})))
+                  \cup (pick(C12Dom(6), {"cont1d", "mapped", "linexp"}) \X {DefGeo(4)})
+
 C12Configs == { [part |-> "C12", mk |-> mk, dg |-> dg, rg |-> rg, fi |-> fi] :
                   mk \in GenKinds, dg \in C12Dom(6), rg \in C12Rng(4), fi \in 1..NF }
+              \cup { [part |-> "C12", mk |-> mk, dg |-> p[1], rg |-> p[2], fi |-> fi] :
+                  mk \in GenKinds, p \in C12DefPairs, fi \in 1..NF }
+
+\* geometries a DISTRIBUTION may carry when a model with p parameters is applied to it (model(dist) = renaming): default,
+\* identity-like, mapped, an expansion in all modes with decaying coefficients (KL-like; realised by cuqi's KLExpansion) and a
+\* step expansion on a grid of 2p nodes.  DistGM = matrix of their par2fun.
+DistGeoSeq(p) == << Geo("default1d", p, p, 1, p, "", <<>>), Geo("cont1d", p, p, 1, p, "", <<>>),
+                    Geo("discrete", p, p, 1, p, "", <<>>), Geo("mapped", p, p, 1, p, "", <<>>),
+                    Geo("klfull", p, p, 1, p, "", <<>>),
+                    Geo("step", 2 * p, p, 1, 2 * p, "mean", [a \in 1..(2 * p) |-> (a + 1) \div 2]) >>
+DistGM(g) == CASE g.kind = "mapped" -> MR(MapM(g.n))
+               [] g.kind = "klfull" -> MDiag([i \in 1..g.n |-> Q(1, i)])
+               [] g.kind = "step"   -> Expand(g.asg, g.k)
+               [] OTHER             -> MId(g.n)
 C12Valid(k) == /\ (NeedsVec(k.mk) => (VecFun(k.dg) /\ VecFun(k.rg)))
                /\ (IsPde(k.mk) => Linear(k.dg))          \* keeps the total degree <= 4 (exact difference stencil)
 
@@ -383,12 +406,27 @@ C12Eval(k, which) ==
                     IN RDiv(RAdd(RSub(pm2, RMul(R(8), pm1)), RSub(RMul(R(8), pp1), pp2)), R(12))
         pChainRule == GradDefined => \A j \in 1..pd : GradTrue[j] = Deriv(j)
         \* --- renaming ------------------------------------------------------------------------
-        pool0 == << [arg |-> "x", dg |-> dg.kind, rg |-> rg.kind, op |-> k.mk] >>
-        pool1 == IF "RenameMutatesOriginal" \in Dev
-                 THEN << [pool0[1] EXCEPT !.arg = "z"], [pool0[1] EXCEPT !.arg = "z"] >>
-                 ELSE Append(pool0, [pool0[1] EXCEPT !.arg = "z"])
-        pRename == /\ pool1[1] = pool0[1]                                               \* original untouched
-                   /\ pool1[2] = [pool0[1] EXCEPT !.arg = "z"]                           \* only the name differs
+        \* model(dist): a pool of model records.  The distribution carries a name and a geometry OF ITS OWN (any kind with the
+        \* model's parameter dimension).  Renaming appends a copy that differs in the argument name ONLY - whatever geometry the
+        \* distribution carries and whether or not the model's own geometries are default ones: same geometries, same forward map
+        \* on every input, original record untouched.
+        m0 == [arg |-> "x", dg |-> dg, rg |-> rg, op |-> k.mk]
+        Renamed(m, dist) == IF "RenameAdoptsDistributionGeometry" \in Dev /\ m.dg.kind = "default1d" /\ dist.geo.kind # "default1d"
+                            THEN [m EXCEPT !.arg = dist.name, !.dg = dist.geo]
+                            ELSE [m EXCEPT !.arg = dist.name]
+        PoolAfter(dist) == IF "RenameMutatesOriginal" \in Dev THEN << Renamed(m0, dist), Renamed(m0, dist) >>
+                           ELSE << m0, Renamed(m0, dist) >>
+        \* forward map exposed by a model record of the pool (its own domain geometry in front of the core operator); a record with
+        \* the original's geometries and operator has the original's forward map
+        ApplyOf(m, v) == LET u == MV(DistGM(m.dg), v) IN IF Len(u) # dg.n THEN IllTyped ELSE F2PV(m.rg, FV(u))
+        SameForward(m) == \/ (m.dg = dg /\ m.rg = rg /\ m.op = k.mk)
+                          \/ \A i \in 1..3 : ApplyOf(m, vs[i]) = Apply(vs[i])
+        DistGeos == DistGeoSeq(pd)
+        pRename == \A gi \in 1..Len(DistGeos) :
+                     LET pool == PoolAfter([name |-> "z", geo |-> DistGeos[gi]])
+                     IN /\ pool[1] = m0                                                  \* original untouched
+                        /\ pool[2] = [m0 EXCEPT !.arg = "z"]                             \* only the name differs
+                        /\ SameForward(pool[1]) /\ SameForward(pool[2])                  \* hence the same forward values
     IN CASE which = "oneoutput" -> pOneOutput
          [] which = "chainrule" -> pChainRule
          [] which = "rename"    -> pRename
@@ -402,6 +440,8 @@ C12Eval(k, which) ==
               fs |-> [i \in 1..3 |-> P2FV(dg, vs[i])],
               outs |-> [i \in 1..3 |-> Apply(vs[i])],
               w |-> IVecB(pd, k.fi + 1), wf |-> P2FV(dg, w), d |-> IVecA(pr, k.fi + 2),
+              rename |-> [dists |-> [gi \in 1..Len(DistGeos) |-> [geo |-> DistGeos[gi], G |-> DistGM(DistGeos[gi])]],
+                          expect |-> [arg |-> "z", dg |-> dg, rg |-> rg, op |-> k.mk]],
               refused |-> Refused, refused_wrt_fun |-> RefusedWrtFun,
               grad_defined |-> GradDefined, grad |-> (IF GradDefined THEN GradTrue ELSE <<>>)]) \o " @@END")
 
